@@ -549,6 +549,47 @@ def collect_macro_models():
                 yield f"M:import={'with' if 'with context' in imp else 'without'}-context:call={call}:param-supplied={supplied}", m
 
 
+def special_char_models():
+    """string parameters with characters that HTML escaping would mangle (date-math index names, ampersands, apostrophes), in the track file
+    and in a collected part: what the user supplies is what the track contains"""
+    for where in ("main", "part"):
+        for val in ("<logs-{now/d}>", "a&b", "it's", "x > y < z"):
+            opdef = '{"name": "op-p", "operation-type": "search", "index": "{{ idx_name }}", "body": {"size": 7}}'
+            raw = ('{% import "rally.helpers" as rally with context %}\n{"version": 2, "description": "{{ descr }}", "indices": [{"name": "{{ idx_name }}"}],\n'
+                   ' "operations": [ ' + (opdef if where == "main" else '{{ rally.collect(parts="operations/*.json") }}') + ' ],\n'
+                   ' "challenges": [{"name": "main", "default": true, "schedule": [{"operation": "op-p", "clients": 2}]}]}')
+            exp = {"version": 2, "description": val, "indices": [{"name": val}],
+                   "operations": [{"name": "op-p", "operation-type": "search", "index": val, "body": {"size": 7}}],
+                   "challenges": [{"name": "main", "default": True, "schedule": [{"operation": "op-p", "clients": 2}]}]}
+            m = {"_raw": raw, "_expect_model": exp, "_params": {"idx_name": val, "descr": val}, "_files": {"operations/op-p.json": opdef} if where == "part" else {}}
+            m.update(exp)
+            yield f"X:special-characters-in-parameter:{where}:{val}", m
+
+
+def nested_collect_models():
+    """parts that collect parts of their own, from different directories with the same relative pattern: every including file gets the files
+    next to it"""
+    for first, second in (("indexing", "querying"), ("querying", "indexing")):
+        raw = ('{% import "rally.helpers" as rally with context %}\n{"version": 2, "description": "d", "indices": [{"name": "logs"}],\n'
+               ' "operations": [{"name": "op-i", "operation-type": "search", "index": "logs", "body": {"size": 1}}, {"name": "op-q", "operation-type": "search", "index": "logs", "body": {"size": 2}}],\n'
+               ' "challenges": [ {{ rally.collect(parts="' + first + '/challenge.json") }}, {{ rally.collect(parts="' + second + '/challenge.json") }} ]}')
+        files = {
+            "indexing/challenge.json": '{"name": "indexing", "default": true, "schedule": [ {{ rally.collect(parts="tasks/*.json") }} ]}',
+            "indexing/tasks/t1.json": '{"operation": "op-i", "clients": 1}',
+            "querying/challenge.json": '{"name": "querying", "schedule": [ {{ rally.collect(parts="tasks/*.json") }} ]}',
+            # (one file per directory: the order in which a glob pattern delivers several files is the file system's)
+            "querying/tasks/t1.json": '{"operation": "op-q", "clients": 2}',
+        }
+        chs = {"indexing": {"name": "indexing", "default": True, "schedule": [{"operation": "op-i", "clients": 1}]},
+               "querying": {"name": "querying", "schedule": [{"operation": "op-q", "clients": 2}]}}
+        exp = {"version": 2, "description": "d", "indices": [{"name": "logs"}],
+               "operations": [{"name": "op-i", "operation-type": "search", "index": "logs", "body": {"size": 1}}, {"name": "op-q", "operation-type": "search", "index": "logs", "body": {"size": 2}}],
+               "challenges": [chs[first], chs[second]]}
+        m = {"_raw": raw, "_expect_model": exp, "_params": {}, "_files": files}
+        m.update(exp)
+        yield f"N:nested-collect:{first}-first", m
+
+
 def corpora_models():
     docsets = [
         {"source-file": "docs.json.bz2", "document-count": 10, "compressed-bytes": 100, "uncompressed-bytes": 1000},
@@ -696,6 +737,7 @@ def run(tier, seed):
         (l, m, None) for l, m in corpora_models()
     ] + [(l, m, None) for l, m in file_models()]
     helpers = [(l, m, None) for l, m in helper_models()] + [(l, m, None) for l, m in collect_macro_models()]
+    helpers += [(l, m, None) for l, m in special_char_models()] + [(l, m, None) for l, m in nested_collect_models()]
     invalid = list(invalid_models())
     jobs = [("valid", ch) for ch in par.chunks(valid, par.NPROC * 4)] + [("invalid", ch) for ch in par.chunks(invalid, par.NPROC)]
     jobs += [("raw", ch) for ch in par.chunks(helpers, 4)]
